@@ -59,6 +59,21 @@ def lifetime_modules():
     bl = [ablock('asg_v', 'a *= &b', ('X("(c[a]-b)")', '1', '1')), ablock('asg_r', 'a *= &&b', ('X("(c[a]-b)")', '1', '1')),
           block('rr', 'let a = %s; let b = %s;' % (X('a'), Yv), '&a * &&b', ('X("(c[a]-b)")', '1', '1'))]
     out.append(('Mul, MulAssign', item, bl))
+    # 4. `Self` nested in the generic arguments of the Output type (a "checked" operator)
+    Xb = 'X("b".to_string())'
+    item = ("impl ::core::ops::Sub for X { type Output = Option<Self>; fn sub(self, rhs: Self) -> Option<Self> { tick(); "
+            "Some(X(format!(\"({}-{})\", self.0, rhs.0))) } }")
+    bl = [block('rv', 'let a = %s; let b = %s;' % (X('a'), Xb), '&a - b', ('Some(X("(c[a]-b)"))', '1', '1')),
+          block('vr', 'let a = %s; let b = %s;' % (X('a'), Xb), 'a - &b', ('Some(X("(a-c[b])"))', '1', '1')),
+          block('rr', 'let a = %s; let b = %s;' % (X('a'), Xb), '&a - &b', ('Some(X("(c[a]-c[b])"))', '1', '2'))]
+    out.append(('Sub', item, bl))
+    # 5. ... and of the Rhs type
+    item = ("impl ::core::ops::Add<Option<Self>> for X { type Output = X; fn add(self, rhs: Option<Self>) -> X { tick(); "
+            "X(format!(\"({}-{})\", self.0, rhs.map_or(\"n\".to_string(), |r| r.0))) } }")
+    bl = [block('rv', 'let a = %s; let b = Some(%s);' % (X('a'), Xb), '&a + b', ('X("(c[a]-b)")', '1', '1')),
+          block('vr', 'let a = %s; let b = Some(%s);' % (X('a'), Xb), 'a + &b', ('X("(a-c[b])")', '1', '1')),
+          block('rr', 'let a = %s; let b: Option<X> = None;' % X('a'), '&a + &b', ('X("(c[a]-n)")', '1', '1'))]
+    out.append(('Add', item, bl))
     return out
 
 
